@@ -147,6 +147,10 @@ class Run:
             self.breaches.append((fam, clause, msg))
             self.stop_flag = True
 
+    def server_alive(self) -> bool:
+        srv = getattr(self, "srv", None)
+        return bool(srv and srv.proc and srv.proc.is_alive())
+
     def bump(self, k: str, n: int = 1) -> None:
         with self.lock:
             self.stats[k] += n
@@ -289,6 +293,22 @@ class Run:
                             self.timeouts.append(f"thread {ti}: {op} not served within {CALL_TIMEOUT:.0f}s")
                             self.stop_flag = True
                         raise _Abort()
+                    except _Abort:
+                        raise
+                    except Exception as e:  # noqa: BLE001
+                        # an exception that is none of the store's documented answers to this request. If it comes out of the
+                        # library (innermost frame in the repository's code) the exchange itself broke -- socket misuse, a
+                        # response meant for another request, an undecodable datagram; otherwise it is this harness's own bug
+                        import traceback
+
+                        tb = traceback.extract_tb(e.__traceback__)
+                        if tb and "/src/cascade/" in tb[-1].filename:
+                            alive = self.server_alive()
+                            self.breach("C09", "client-call-raises" if alive else "server-died",
+                                        f"thread {ti}: {op}: the client call raised {e!r} at {tb[-1].name} "
+                                        f"({'the server process is alive' if alive else 'the server process has ended'})")
+                            raise _Abort()
+                        raise
                 # end of phase: close nothing (held readers persist), wait for everybody, the main thread checks the books
                 self.present_bytes[ti] = sum(m["size"] for m in model.values() if m["state"] == "present")
                 barrier.wait(timeout=CALL_TIMEOUT * 4)
@@ -341,6 +361,7 @@ class Run:
 
     def execute(self) -> None:
         srv = Server(self.port, self.capacity, self.prefix)
+        self.srv = srv
         try:
             nph = max(len(t) for t in self.case["threads"])
             scripts = [t + [[]] * (nph - len(t)) for t in self.case["threads"]]
